@@ -277,6 +277,10 @@ func excludeV(v *View, pattern string) (err error) {
 			}
 			return true, nil
 		})
+		// A malformed pattern is an error, and not an empty list.
+		if err != nil {
+			return err
+		}
 	}
 	if p, exclude := excludeType(typeTg, pattern); exclude {
 		v.Triggers, err = filter(v.Triggers, func(t *Trigger) (bool, error) {
